@@ -917,6 +917,7 @@ theorem spec_runOp (cf : Cfg) (q p : Bool) (op : Op) (s : St) (hwf : cf.WF) (hI 
     · rintro _ s2 ⟨hI2, -⟩
       exact wp_mono (spec_execSql cf q p false false s2 hwf hI2) (fun _ _ h => h.1) (fun _ _ h => h)
     · rintro _ s2 ⟨⟨hI2, -⟩, hq⟩; exact ⟨hI2, hq⟩
+  | select => exact wp_mono (spec_execSql cf q p false false s hwf hI) (fun _ _ h => h.1) (fun _ _ h => h)
   | write many => exact wp_mono (spec_execSql cf q p true many s hwf hI) (fun _ _ h => h.1) (fun _ _ h => h)
   | modify ws =>
     simp only [runOp, wp_bind, wp_modC]
